@@ -164,15 +164,15 @@ def seq_level(ctx, ff, vals, note):
                 ctx.violation("angular flip_flop_index outside its range", case, "0 <= v", v)
 
 
-def invariances(ctx, ff, vals, rng):
+def invariances(ctx, ff, vals, rng, c=None, k=None):
     """relations between public calls on the implementation"""
     n = len(vals)
     if n < 3:
         return
     da = seq_da(vals)
     base = float(ff.flip_flop_index(da, "t"))
-    c = float(gens.grid_value(rng, 4, 8))
-    k = float(Fraction(rng.randint(-12, 12), 4))
+    c = float(gens.grid_value(rng, 4, 8)) if c is None else c
+    k = float(Fraction(rng.randint(-12, 12), 4)) if k is None else k
     rel = [("shift", [v + c for v in vals], base), ("negate", [-v for v in vals], base),
            ("reverse", list(reversed(vals)), base), ("scale", [k * v for v in vals], abs(k) * base)]
     for name, w, expect in rel:
@@ -212,12 +212,13 @@ def known_cases(ctx, ff):
             ctx.violation("angular flip_flop_index is negative", {"values": vals}, ">= 0", idx)
 
 
-def rotation(ctx, ff, vals, rng):
+def rotation(ctx, ff, vals, rng, rot=None):
     if len(vals) < 3:
         return
-    rot = float(Fraction(rng.randint(-2880, 2880), 8))
-    if rng.random() < 0.3:
-        rot = rng.choice([7.3, 123.456, -359.9, 1e-3, 181.0, 33.3])      # not a dyadic number: predicate on the implementation only
+    if rot is None:
+        rot = float(Fraction(rng.randint(-2880, 2880), 8))
+        if rng.random() < 0.3:
+            rot = rng.choice([7.3, 123.456, -359.9, 1e-3, 181.0, 33.3])      # not a dyadic number: predicate on the implementation only
     w = [v + rot for v in vals]
     a = float(ff.flip_flop_index(seq_da(vals), "t", is_angular=True))
     b = float(ff.flip_flop_index(seq_da(w), "t", is_angular=True))
@@ -345,6 +346,35 @@ def prop_level(ctx, ff, rng, i):
                               dict(desc, index_values=flat, threshold=t), str(spec), got)
 
 
+def _num(x):
+    if isinstance(x, str):
+        return float("nan") if x == "nan" else (float("inf") if x == "inf" else (float("-inf") if x == "-inf" else float(Fraction(x))))
+    return float(x)
+
+
+def replay(ctx, obj):
+    """re-evaluate the recorded failing input(s) of a replay file on the current tree"""
+    import random
+    ff = S()
+    rng = random.Random(0)
+    vs = obj.get("all_violations") or ([obj["violation"]] if "violation" in obj else [])
+    vs = vs + [c for c in (obj.get("no_longer_checks") or {}).get("correspondence", []) if "case" in c]
+    for v in vs:
+        c = v["case"]
+        if isinstance(c, dict) and "values" in c:
+            vals = [_num(x) for x in c["values"]]
+            seq_level(ctx, ff, vals, "replay")
+            if all(np.isfinite(vals)):
+                if "rotation" in c:
+                    rotation(ctx, ff, vals, rng, rot=_num(c["rotation"]))
+                if "c" in c:
+                    invariances(ctx, ff, vals, rng, c=_num(c["c"]), k=_num(c["k"]))
+        else:
+            ctx.note("replay: case kind not replayable individually; running the full check instead")
+            run(ctx)
+            return
+
+
 def run(ctx):
     ff = S()
     rng = ctx.rng
@@ -358,7 +388,10 @@ def run(ctx):
                 continue
             seq_level(ctx, ff, [grid[k] for k in combo], "grid45")
     ctx.count("grid45_sequences", ctx.evaluations)
-    for i in range(ctx.n(500, 8000)):
+    if ctx.tier == "thorough":
+        ctx.exhaustive = True          # every sequence of 1-4 directions on the 45-degree grid was enumerated
+        ctx.note("exhaustive: all 8 + 64 + 512 + 4096 sequences of 1-4 directions on the 45-degree grid (model, implementation and specifications agree)")
+    for i in range(ctx.n(500, 16000)):
         if not ctx.time_left():
             break
         angular = rng.random() < 0.5
@@ -376,15 +409,15 @@ def run(ctx):
                 rotation(ctx, ff, vals, rng)
             else:
                 invariances(ctx, ff, vals, rng)
-    for i in range(ctx.n(250, 4000)):
+    for i in range(ctx.n(250, 8000)):
         if not ctx.time_left():
             break
         array_level(ctx, ff, rng, i)
-    for i in range(ctx.n(160, 2500)):
+    for i in range(ctx.n(160, 5000)):
         if not ctx.time_left():
             break
         sector_level(ctx, ff, rng, i)
-    for i in range(ctx.n(200, 3000)):
+    for i in range(ctx.n(200, 6000)):
         if not ctx.time_left():
             break
         prop_level(ctx, ff, rng, i)
